@@ -4,7 +4,7 @@ HEADER = """C06 — Priority-first search expands nodes in priority order.
    vleb is the node-value type's `<=` (a total preorder, as Rust's Ord guarantees). wl_loop_log is wl_loop instrumented
    to return, for every pop, (popped node, queue right after the pop, tree at that moment); wl_loop_log_erase shows it is
    the same machine. The heap property of the transcription (HeapOrd) is PROVED (coq/proofs/StdHeap.v), not monitored."""
-REQUIRES = ["From Gdsl.Model Require Import Spec Callback.", "From Gdsl.Proofs Require Import StdHeap Worklist Pfs SearchGlue."]
+REQUIRES = ["From Gdsl.Model Require Import Spec Callback SearchFind.", "From Gdsl.Proofs Require Import StdHeap Worklist Pfs SearchGlue SearchFindProof."]
 PINS = [
  ("c06_instrumentation_is_erasable", "wl_loop_log_erase", "the instrumented loop returns exactly what wl_loop returns"),
  ("c06_run_is_logged_run", "pfs_run_log", "run_search for the pfs kinds is the (erased) instrumented run the next theorems speak about"),
@@ -16,7 +16,8 @@ PINS = [
  ("c06_heap_is_a_queue", "stdheap_qspec", "push/pop neither lose nor invent elements (multiset specification), for every order test"),
  ("c06_path_sound", "pfs_path_sound", "with a target: a returned path is a chain of accepted stored edges from the root to the target"),
  ("c06_path_complete", "pfs_path_complete", "None only if the target is unreachable through accepted edges"),
- ("c06_search_agrees", "pfs_find_agrees", "search() returns the target node exactly when search_path() returns a path"),
+ ("c06_search_agrees", "search_find'_agrees_pfs", "search() — the SEPARATELY transcribed find loops of the code (model/SearchFind.v: loop_*_find / recurse_*_find; for pfs `search_path().map(last_node)`) — returns the target node exactly when search_path() returns a path, and that node is where the path ends"),
+ ("c06_find_loops_simulate_path_loops", "find_machine_agrees", "for EVERY callback (no purity needed), heap, root, target and fuel: the find machine ends with the same verdict, the same heap, the same callback state (hence the same closure trace) and the same visited set as the path machine"),
  ("c06_terminates", "pfs_terminates", "fuel_bound suffices"),
  ("c06_no_panic", "wlq_no_panic", "never the unwrap() panic of backtrack_edge_tree (any worklist kind, hence the pfs kinds)"),
  ("c06_node_cmp", "node_cmp_spec", "Ord / PartialOrd of nodes = comparison of their values"),
